@@ -178,7 +178,14 @@ static int ss_fill(int argc, char **argv)
             }
             break;
          case TYPE_NUMERIC: case TYPE_CODETABLE: case TYPE_FLAGTABLE: case TYPE_CHNG_REF_VAL_OP:
-            if (b->encoding.nbits > 0 && b->encoding.nbits <= 64) set_raw(b, pick_raw(mode, seed, i, b->encoding.nbits));
+            if (b->encoding.nbits > 0 && b->encoding.nbits <= 64)
+               {
+               uint64_t raw = pick_raw(mode, seed, i, b->encoding.nbits);
+               /* a new reference value of -1 cannot be told from "missing" (known limitation): avoid it */
+               if (b->encoding.type == TYPE_CHNG_REF_VAL_OP && raw != bufr_missing_ivalue(b->encoding.nbits) &&
+                   bufr_cvt_ivalue(raw, b->encoding.nbits) == -1) raw = 0;
+               set_raw(b, raw);
+               }
             break;
          default: break;
          }
